@@ -1,21 +1,43 @@
 import Pendulum.Proofs.FmtMatch
+import Pendulum.Proofs.CalRT
+import Pendulum.Props.C15
 /-! The class 𝓕 of round-trip formats treated by proof: numeric tokens carrying each field at most once per
-family, literal separators, a non-digit after every variable-width token. -/
+family, the 12-hour clock with the meridiem word, day of the year, two-digit years, every fraction width,
+literal separators, a non-digit after every variable-width token. -/
 namespace Pendulum.Fmt
 
-/-- numeric tokens of the class -/
+/-- tokens of the class -/
 inductive NTok where
   | YYYY | MM | M | DD | D | HH | H | mm | m | ss | s | SSSSSS | Z | ZZ
+  | YY | DDDD | DDD | hh | h | A | S | SS | SSS | SSSS | SSSSS
   deriving DecidableEq, Repr
 
 def NTok.str : NTok → String
   | .YYYY => "YYYY" | .MM => "MM" | .M => "M" | .DD => "DD" | .D => "D" | .HH => "HH" | .H => "H"
   | .mm => "mm" | .m => "m" | .ss => "ss" | .s => "s" | .SSSSSS => "SSSSSS" | .Z => "Z" | .ZZ => "ZZ"
+  | .YY => "YY" | .DDDD => "DDDD" | .DDD => "DDD" | .hh => "hh" | .h => "h" | .A => "A"
+  | .S => "S" | .SS => "SS" | .SSS => "SSS" | .SSSS => "SSSS" | .SSSSS => "SSSSS"
 
 /-- rendered width never exceeds what the recogniser takes greedily, whatever follows -/
 def NTok.fixed : NTok → Bool
-  | .YYYY | .MM | .DD | .HH | .mm | .ss | .Z | .ZZ => true
+  | .YYYY | .MM | .DD | .HH | .mm | .ss | .Z | .ZZ | .YY | .DDDD | .hh | .A | .SSS => true
   | _ => false
+
+/-- `dt.day_of_year` as the formatter reads it (generated closed form of `Date.day_of_year`) -/
+def doy (v : Val) : Int := Gen.date_day_of_year (Cal.isLeap v.y) v.mo v.d
+
+/-- the hour on the 12-hour clock as the `hh`/`h` rules compute it -/
+def h12 (v : Val) : Int := if (v.h % (12 : Int)) != 0 then (v.h % (12 : Int)) else (12 : Int)
+
+/-- the AM word cannot match where the PM word was written: at some position it has a character that is neither the
+    regex wildcard `.` nor the PM word's character there -/
+def wordsClash : Str → Str → Bool
+  | p :: ps, c :: cs => (p != '.' && p != c) || wordsClash ps cs
+  | _, _ => false
+
+/-- the locale's meridiem words are told apart by the `A` recogniser (true for the 27 shipped locales:
+    `Props.C08.meridiem_words_distinct`) -/
+def AmPmOK (L : Loc) : Bool := wordsClash L.am.toList L.pm.toList
 
 /-- values in the property's domain: years 1000..9999, valid clock fields, whole-minute offset below 100 h -/
 structure InRange (v : Val) : Prop where
@@ -29,26 +51,38 @@ structure InRange (v : Val) : Prop where
   off : v.off % 60 = 0 ∧ -360000 < v.off ∧ v.off < 360000
 
 /-- what `format()` writes for the token -/
-def NTok.render (v : Val) : NTok → Str
+def NTok.render (L : Loc) (v : Val) : NTok → Str
   | .YYYY => pyFmtD 0 v.y | .MM => pyFmtD 2 v.mo | .M => pyFmtD 0 v.mo | .DD => pyFmtD 2 v.d | .D => pyFmtD 0 v.d
   | .HH => pyFmtD 2 v.h | .H => pyFmtD 0 v.h | .mm => pyFmtD 2 v.mi | .m => pyFmtD 0 v.mi
   | .ss => pyFmtD 2 v.s | .s => pyFmtD 0 v.s | .SSSSSS => pyFmtD 6 v.us
   | .Z => offsetStr true v.off | .ZZ => offsetStr false v.off
+  | .YY => (pyFmtD 0 v.y).drop 2
+  | .DDDD => pyFmtD 3 (doy v) | .DDD => pyFmtD 0 (doy v)
+  | .hh => pyFmtD 2 (h12 v) | .h => pyFmtD 0 (h12 v)
+  | .A => if v.h ≥ 12 then L.pm.toList else L.am.toList
+  | .S => pyFmtD 1 (v.us / (100000 : Int)) | .SS => pyFmtD 2 (v.us / (10000 : Int)) | .SSS => pyFmtD 3 (v.us / (1000 : Int))
+  | .SSSS => pyFmtD 4 (v.us / (100 : Int)) | .SSSSS => pyFmtD 5 (v.us / (10 : Int))
 
-theorem formatToken_NTok (L : Loc) (v : Val) (t : NTok) : formatToken L v.toDTF t.str = .ok (t.render v) := by
+theorem formatToken_NTok (L : Loc) (v : Val) (t : NTok) : formatToken L v.toDTF t.str = .ok (t.render L v) := by
   cases t <;> rfl
 
 /-- the recogniser `_replace_tokens` builds for the token -/
-def NTok.lens : NTok → El
+def NTok.lens (L : Loc) : NTok → El
   | .YYYY => fun s => lensD 1 4 s ++ lensD 4 4 s
-  | .MM | .HH | .mm | .ss => fun s => lensD 1 2 s ++ lensD 2 2 s
-  | .M | .D | .H | .m | .s => lensD 1 2
+  | .MM | .HH | .mm | .ss | .YY | .hh => fun s => lensD 1 2 s ++ lensD 2 2 s
+  | .M | .D | .H | .m | .s | .h => lensD 1 2
   | .DD => fun s => lensPad s ++ lensD 2 2 s
-  | .SSSSSS => lensD 1 0
+  | .SSSSSS | .SSSS | .SSSSS => lensD 1 0
   | .Z => lensOffset false
   | .ZZ => lensOffset true
+  | .DDDD => lensD 3 3
+  | .DDD => lensD 1 3
+  | .A => lensWords [L.am.toList, L.pm.toList]
+  | .S => fun s => lensD 1 3 s ++ lensD 1 1 s
+  | .SS => fun s => lensD 1 3 s ++ lensD 2 2 s
+  | .SSS => fun s => lensD 1 3 s ++ lensD 3 3 s
 
-theorem groupOf_NTok (L : Loc) (t : NTok) : ∃ f, groupOf L t.str = Group.lens f ∧ f = t.lens := by
+theorem groupOf_NTok (L : Loc) (t : NTok) : ∃ f, groupOf L t.str = Group.lens f ∧ f = t.lens L := by
   cases t <;> exact ⟨_, rfl, rfl⟩
 
 end Pendulum.Fmt
@@ -81,84 +115,140 @@ theorem intOf_digits (r : Str) (hne : r ≠ []) (hall : r.all Char.isDigit = tru
     · rename_i r heq; injection heq with e _; exact absurd e h3
     · simp [hall']
 
-theorem convInt_digits (r : Str) (hne : r ≠ []) (hall : r.all Char.isDigit = true) :
-    convInt (PKind.int 1 0) r = .ok (natOfDigits r : Int) := by
+theorem convInt_digits (mul : Int) (r : Str) (hne : r ≠ []) (hall : r.all Char.isDigit = true) :
+    convInt (PKind.int mul 0) r = .ok ((natOfDigits r : Int) * mul) := by
   simp [convInt, intOf_digits r hne hall]
 
-/-- a digit token: the field it carries and the zero-padding width of its rule -/
+/-- `YY`: the last two digits of a four-digit year -/
+theorem yy_drop (y : Int) (h : 1000 ≤ y ∧ y ≤ 9999) : (pyFmtD 0 y).drop 2 = digitsW 2 (y.toNat % 100) := by
+  rw [pyFmtD_plain 4 y (by omega) (by decide) (Or.inl (by simp; omega)) (by simp; omega)]
+  simp only [digitsW, List.drop]
+  have e1 : y.toNat % 100 / 10 ^ 1 % 10 = y.toNat / 10 ^ 1 % 10 := by simp; omega
+  have e2 : y.toNat % 100 / 10 ^ 0 % 10 = y.toNat / 10 ^ 0 % 10 := by simp
+  rw [e1, e2]
+
+/-- a digit token: the number it writes and the zero-padding width of its rule -/
 def NTok.isDigitTok : NTok → Bool
-  | .Z | .ZZ => false
+  | .Z | .ZZ | .A => false
   | _ => true
 
 def NTok.value (v : Val) : NTok → Int
   | .YYYY => v.y | .MM | .M => v.mo | .DD | .D => v.d | .HH | .H => v.h | .mm | .m => v.mi | .ss | .s => v.s
-  | .SSSSSS => v.us | _ => 0
-
-def NTok.width : NTok → Nat
-  | .MM | .DD | .HH | .mm | .ss => 2
-  | .SSSSSS => 6
+  | .SSSSSS => v.us
+  | .YY => v.y % 100 | .DDDD | .DDD => doy v | .hh | .h => h12 v
+  | .S => v.us / 100000 | .SS => v.us / 10000 | .SSS => v.us / 1000 | .SSSS => v.us / 100 | .SSSSS => v.us / 10
   | _ => 0
 
-theorem render_digit (v : Val) (t : NTok) (h : t.isDigitTok = true) : t.render v = pyFmtD t.width (t.value v) := by
-  cases t <;> first | rfl | simp [NTok.isDigitTok] at h
+def NTok.width : NTok → Nat
+  | .MM | .DD | .HH | .mm | .ss | .YY | .hh | .SS => 2
+  | .SSSSSS => 6
+  | .DDDD | .SSS => 3
+  | .S => 1 | .SSSS => 4 | .SSSSS => 5
+  | _ => 0
 
-theorem value_nonneg (v : Val) (hv : InRange v) (t : NTok) : 0 ≤ t.value v := by
+/-- largest number the token can write for a value of the domain -/
+def NTok.vmax : NTok → Int
+  | .YYYY => 9999 | .MM | .M => 12 | .DD | .D => 31 | .HH | .H => 23 | .mm | .m | .ss | .s => 59
+  | .SSSSSS => 999999 | .YY => 99 | .DDDD | .DDD => 366 | .hh | .h => 12
+  | .S => 9 | .SS => 99 | .SSS => 999 | .SSSS => 9999 | .SSSSS => 99999
+  | _ => 0
+
+theorem doy_bounds (v : Val) (hv : InRange v) : 1 ≤ doy v ∧ doy v ≤ 366 := by
+  unfold doy
+  rw [Props.C15.day_of_year_spec _ _ _ hv.mo]
+  have := Cal.dbm_bounds (Cal.isLeap v.y) v.mo hv.mo
+  have := hv.d
+  omega
+
+theorem h12_bounds (v : Val) (hv : InRange v) : 1 ≤ h12 v ∧ h12 v ≤ 12 ∧ h12 v % 12 = v.h % 12 := by
+  have := hv.h
+  unfold h12
+  by_cases h0 : v.h % 12 = 0
+  · have hb : (v.h % 12 != 0) = false := by simp [h0]
+    simp only [hb, Bool.false_eq_true, if_false]; omega
+  · have hb : (v.h % 12 != 0) = true := by simp [h0]
+    simp only [hb, if_true]; omega
+
+theorem value_bounds (v : Val) (hv : InRange v) (t : NTok) : 0 ≤ t.value v ∧ t.value v ≤ t.vmax := by
   obtain ⟨h1, h2, h3, h4, h5, h6, h7, _⟩ := hv
-  cases t <;> simp only [NTok.value] <;> omega
+  have hd := doy_bounds v ⟨h1, h2, h3, h4, h5, h6, h7, by assumption⟩
+  have hh := h12_bounds v ⟨h1, h2, h3, h4, h5, h6, h7, by assumption⟩
+  cases t <;> simp only [NTok.value, NTok.vmax] <;> omega
 
-/-- a digit token's piece is a non-empty run of digits that reads back as the field -/
-theorem piece_digit (v : Val) (hv : InRange v) (t : NTok) (h : t.isDigitTok = true) :
-    (t.render v).all Char.isDigit = true ∧ t.render v ≠ [] ∧ (natOfDigits (t.render v) : Int) = t.value v := by
-  rw [render_digit v t h]
+theorem value_nonneg (v : Val) (hv : InRange v) (t : NTok) : 0 ≤ t.value v := (value_bounds v hv t).1
+
+theorem render_digit (L : Loc) (v : Val) (hv : InRange v) (t : NTok) (h : t.isDigitTok = true) :
+    t.render L v = pyFmtD t.width (t.value v) := by
+  cases t <;> first | rfl | simp [NTok.isDigitTok] at h | skip
+  -- YY
+  show (pyFmtD 0 v.y).drop 2 = pyFmtD 2 (v.y % 100)
+  have := hv.y
+  rw [yy_drop v.y hv.y, pyFmtD_fixed 2 (v.y % 100) (by omega) (by decide) (by simp; omega)]
+  congr 1; omega
+
+/-- a digit token's piece is a non-empty run of digits that reads back as the number it wrote -/
+theorem piece_digit (L : Loc) (v : Val) (hv : InRange v) (t : NTok) (h : t.isDigitTok = true) :
+    (t.render L v).all Char.isDigit = true ∧ t.render L v ≠ [] ∧ (natOfDigits (t.render L v) : Int) = t.value v := by
+  rw [render_digit L v hv t h]
   have h0 := value_nonneg v hv t
   exact ⟨pyFmtD_all_digit _ _ h0, pyFmtD_ne_nil _ _ h0, natOfDigits_pyFmtD _ _ h0⟩
 
 /-! ### first candidate = rendered piece -/
 
-theorem lens_head_digit (v : Val) (hv : InRange v) (t : NTok) (h : t.isDigitTok = true) (rest : Str)
-    (hsep : t.fixed = true ∨ digitRun rest = 0) : ∃ more, t.lens (t.render v ++ rest) = (t.render v).length :: more := by
-  obtain ⟨hall, hne, _⟩ := piece_digit v hv t h
-  obtain ⟨h1, h2, h3, h4, h5, h6, h7, _⟩ := hv
-  have two : ∀ (n : Int), 0 ≤ n → n ≤ 99 → pyFmtD 2 n = digitsW 2 n.toNat := fun n a b =>
-    pyFmtD_fixed 2 n a (by decide) (by simp; omega)
-  have short : ∀ (n : Int), 0 ≤ n → n ≤ 99 → (pyFmtD 0 n).length ≤ 2 := by
-    intro n a b
-    rw [pyFmtD_nonneg 0 n a, digitsW_length]
-    have := numDigitsAux_le n.toNat n.toNat 2 (by decide) (by simp; omega)
-    unfold numDigits; omega
-  have pos : ∀ (w : Nat) (n : Int), 0 ≤ n → 1 ≤ (pyFmtD w n).length := by
-    intro w n a
-    have := pyFmtD_ne_nil w n a
-    cases hh : pyFmtD w n with
-    | nil => exact absurd hh this
-    | cons _ _ => simp
-  -- fixed two-digit tokens
-  have fix2 : ∀ (n : Int), 0 ≤ n → n ≤ 99 →
-      ∃ more, (lensD 1 2 (pyFmtD 2 n ++ rest) ++ lensD 2 2 (pyFmtD 2 n ++ rest)) = (pyFmtD 2 n).length :: more := by
-    intro n a b
-    rw [two n a b]
-    obtain ⟨m, hm⟩ := lensD_fixed 1 2 (digitsW 2 n.toNat) rest (digitsW_all_digit _ _) (digitsW_length _ _) (by decide) (by decide)
-    rw [hm, digitsW_length]
-    exact head_append _ _ _
-  -- variable-width tokens followed by a non-digit
-  have var2 : ∀ (n : Int), 0 ≤ n → n ≤ 99 → digitRun rest = 0 →
-      ∃ more, lensD 1 2 (pyFmtD 0 n ++ rest) = (pyFmtD 0 n).length :: more := by
-    intro n a b hr
-    exact lensD_sep 1 2 _ rest (pyFmtD_all_digit _ _ a) hr (pos 0 n a) (Or.inr (short n a b))
-  cases t with
-  | YYYY =>
+theorem pyFmtD_len_fixed (w : Nat) (n : Int) (h0 : 0 ≤ n) (hw : 1 ≤ w) (h1 : n.toNat < 10 ^ w) : (pyFmtD w n).length = w := by
+  rw [pyFmtD_fixed w n h0 hw h1, digitsW_length]
+
+theorem pyFmtD_len_le (k : Nat) (n : Int) (h0 : 0 ≤ n) (hk : 1 ≤ k) (h1 : n.toNat < 10 ^ k) : (pyFmtD 0 n).length ≤ k := by
+  rw [pyFmtD_nonneg 0 n h0, digitsW_length]
+  have := numDigitsAux_le n.toNat n.toNat k hk h1
+  unfold numDigits; omega
+
+theorem pyFmtD_len_pos (w : Nat) (n : Int) (h0 : 0 ≤ n) : 1 ≤ (pyFmtD w n).length := by
+  have := pyFmtD_ne_nil w n h0
+  cases hh : pyFmtD w n with
+  | nil => exact absurd hh this
+  | cons _ _ => simp
+
+theorem lens_head_digit (L : Loc) (v : Val) (hv : InRange v) (t : NTok) (h : t.isDigitTok = true) (rest : Str)
+    (hsep : t.fixed = true ∨ digitRun rest = 0) :
+    ∃ more, t.lens L (t.render L v ++ rest) = (t.render L v).length :: more := by
+  obtain ⟨hall, hne, _⟩ := piece_digit L v hv t h
+  have hb := value_bounds v hv t
+  rw [render_digit L v hv t h] at hall ⊢
+  -- `\d{lo,W}` first, on a piece of exactly W digits
+  have fixW : ∀ (lo W : Nat) (n : Int), 0 ≤ n → 1 ≤ W → lo ≤ W → n.toNat < 10 ^ W →
+      ∃ more, lensD lo W (pyFmtD W n ++ rest) = (pyFmtD W n).length :: more := by
+    intro lo W n a hW hlo b
+    rw [pyFmtD_fixed W n a hW b]
+    obtain ⟨m, hm⟩ := lensD_fixed lo W (digitsW W n.toNat) rest (digitsW_all_digit _ _) (digitsW_length _ _) hlo (by omega)
+    rw [hm, digitsW_length]; exact ⟨m, rfl⟩
+  -- variable-width piece followed by a non-digit
+  have varW : ∀ (lo hi w : Nat) (n : Int), 0 ≤ n → digitRun rest = 0 → lo ≤ 1 → (hi = 0 ∨ (pyFmtD w n).length ≤ hi) →
+      ∃ more, lensD lo hi (pyFmtD w n ++ rest) = (pyFmtD w n).length :: more := by
+    intro lo hi w n a hr hlo hhi
+    exact lensD_sep lo hi _ rest (pyFmtD_all_digit _ _ a) hr (by have := pyFmtD_len_pos w n a; omega) hhi
+  have app : ∀ {k : Nat} {l : List Nat} (l2 : List Nat), (∃ more, l = k :: more) → ∃ more, l ++ l2 = k :: more := by
+    intro k l l2 ⟨m, hm⟩; rw [hm]; exact head_append _ _ _
+  have nosep : t.fixed = false → digitRun rest = 0 := by
+    intro hf; rcases hsep with h1 | h1
+    · rw [hf] at h1; cases h1
+    · exact h1
+  cases t
+  case Z => simp [NTok.isDigitTok] at h
+  case ZZ => simp [NTok.isDigitTok] at h
+  case A => simp [NTok.isDigitTok] at h
+  case YYYY =>
+    simp only [NTok.value, NTok.vmax, NTok.width, NTok.lens] at hb ⊢
+    have hy := hv.y
     have e : pyFmtD 0 v.y = digitsW 4 v.y.toNat :=
       pyFmtD_plain 4 v.y (by omega) (by decide) (Or.inl (by simp; omega)) (by simp; omega)
-    simp only [NTok.lens, NTok.render, e]
+    rw [e]
     obtain ⟨m, hm⟩ := lensD_fixed 1 4 (digitsW 4 v.y.toNat) rest (digitsW_all_digit _ _) (digitsW_length _ _) (by decide) (by decide)
     rw [hm, digitsW_length]
     exact head_append _ _ _
-  | MM => exact fix2 v.mo (by omega) (by omega)
-  | HH => exact fix2 v.h (by omega) (by omega)
-  | mm => exact fix2 v.mi (by omega) (by omega)
-  | ss => exact fix2 v.s (by omega) (by omega)
-  | DD =>
-    simp only [NTok.lens, NTok.render, two v.d (by omega) (by omega), digitsW_two]
+  case DD =>
+    simp only [NTok.value, NTok.vmax, NTok.width, NTok.lens] at hb ⊢
+    rw [pyFmtD_fixed 2 v.d hb.1 (by decide) (by simp; omega), digitsW_two]
     have a1 := (digitChar_cases (v.d.toNat / 10 % 10) (Nat.mod_lt _ (by decide))).1
     have a2 := (digitChar_cases (v.d.toNat % 10) (Nat.mod_lt _ (by decide))).1
     have : digitRun (digitChar (v.d.toNat % 10) :: rest) ≥ 1 := by
@@ -166,27 +256,28 @@ theorem lens_head_digit (v : Val) (hv : InRange v) (t : NTok) (h : t.isDigitTok 
       simp at this; omega
     simp only [List.cons_append, List.nil_append, lensPad, a1, Bool.true_or, if_true, this, List.length_cons, List.length_nil]
     exact ⟨_, rfl⟩
-  | M => rcases hsep with hf | hr
-         · simp [NTok.fixed] at hf
-         · exact var2 v.mo (by omega) (by omega) hr
-  | D => rcases hsep with hf | hr
-         · simp [NTok.fixed] at hf
-         · exact var2 v.d (by omega) (by omega) hr
-  | H => rcases hsep with hf | hr
-         · simp [NTok.fixed] at hf
-         · exact var2 v.h (by omega) (by omega) hr
-  | m => rcases hsep with hf | hr
-         · simp [NTok.fixed] at hf
-         · exact var2 v.mi (by omega) (by omega) hr
-  | s => rcases hsep with hf | hr
-         · simp [NTok.fixed] at hf
-         · exact var2 v.s (by omega) (by omega) hr
-  | SSSSSS =>
-    rcases hsep with hf | hr
-    · simp [NTok.fixed] at hf
-    · exact lensD_sep 1 0 _ rest (pyFmtD_all_digit _ _ (by omega)) hr (pos 6 v.us (by omega)) (Or.inl rfl)
-  | Z => simp [NTok.isDigitTok] at h
-  | ZZ => simp [NTok.isDigitTok] at h
+  -- two-digit fixed tokens
+  case MM => exact app _ (fixW 1 2 _ hb.1 (by decide) (by decide) (by simp [NTok.value, NTok.vmax] at hb ⊢; omega))
+  case HH => exact app _ (fixW 1 2 _ hb.1 (by decide) (by decide) (by simp [NTok.value, NTok.vmax] at hb ⊢; omega))
+  case mm => exact app _ (fixW 1 2 _ hb.1 (by decide) (by decide) (by simp [NTok.value, NTok.vmax] at hb ⊢; omega))
+  case ss => exact app _ (fixW 1 2 _ hb.1 (by decide) (by decide) (by simp [NTok.value, NTok.vmax] at hb ⊢; omega))
+  case YY => exact app _ (fixW 1 2 _ hb.1 (by decide) (by decide) (by simp [NTok.value, NTok.vmax] at hb ⊢; omega))
+  case hh => exact app _ (fixW 1 2 _ hb.1 (by decide) (by decide) (by simp [NTok.value, NTok.vmax] at hb ⊢; omega))
+  case DDDD => exact fixW 3 3 _ hb.1 (by decide) (by decide) (by simp [NTok.value, NTok.vmax] at hb ⊢; omega)
+  case SSS => exact app _ (fixW 1 3 _ hb.1 (by decide) (by decide) (by simp [NTok.value, NTok.vmax] at hb ⊢; omega))
+  -- variable-width tokens
+  case M => exact varW 1 2 0 _ hb.1 (nosep rfl) (by decide) (Or.inr (pyFmtD_len_le 2 _ hb.1 (by decide) (by simp [NTok.value, NTok.vmax] at hb ⊢; omega)))
+  case D => exact varW 1 2 0 _ hb.1 (nosep rfl) (by decide) (Or.inr (pyFmtD_len_le 2 _ hb.1 (by decide) (by simp [NTok.value, NTok.vmax] at hb ⊢; omega)))
+  case H => exact varW 1 2 0 _ hb.1 (nosep rfl) (by decide) (Or.inr (pyFmtD_len_le 2 _ hb.1 (by decide) (by simp [NTok.value, NTok.vmax] at hb ⊢; omega)))
+  case m => exact varW 1 2 0 _ hb.1 (nosep rfl) (by decide) (Or.inr (pyFmtD_len_le 2 _ hb.1 (by decide) (by simp [NTok.value, NTok.vmax] at hb ⊢; omega)))
+  case s => exact varW 1 2 0 _ hb.1 (nosep rfl) (by decide) (Or.inr (pyFmtD_len_le 2 _ hb.1 (by decide) (by simp [NTok.value, NTok.vmax] at hb ⊢; omega)))
+  case h => exact varW 1 2 0 _ hb.1 (nosep rfl) (by decide) (Or.inr (pyFmtD_len_le 2 _ hb.1 (by decide) (by simp [NTok.value, NTok.vmax] at hb ⊢; omega)))
+  case DDD => exact varW 1 3 0 _ hb.1 (nosep rfl) (by decide) (Or.inr (pyFmtD_len_le 3 _ hb.1 (by decide) (by simp [NTok.value, NTok.vmax] at hb ⊢; omega)))
+  case SSSSSS => exact varW 1 0 6 _ hb.1 (nosep rfl) (by decide) (Or.inl rfl)
+  case SSSS => exact varW 1 0 4 _ hb.1 (nosep rfl) (by decide) (Or.inl rfl)
+  case SSSSS => exact varW 1 0 5 _ hb.1 (nosep rfl) (by decide) (Or.inl rfl)
+  case S => exact app _ (varW 1 3 1 _ hb.1 (nosep rfl) (by decide) (Or.inr (by rw [pyFmtD_len_fixed 1 _ hb.1 (by decide) (by simp [NTok.value, NTok.vmax] at hb ⊢; omega)]; decide)))
+  case SS => exact app _ (varW 1 3 2 _ hb.1 (nosep rfl) (by decide) (Or.inr (by rw [pyFmtD_len_fixed 2 _ hb.1 (by decide) (by simp [NTok.value, NTok.vmax] at hb ⊢; omega)]; decide)))
 
 end Pendulum.Fmt
 
@@ -256,14 +347,63 @@ theorem lens_head_ZZ (off : Int) (hb : -360000 < off ∧ off < 360000) (rest : S
     · rename_i t heq; injection heq with e _; exact absurd e nc
     · simp [t2]
 
-theorem lens_head (v : Val) (hv : InRange v) (t : NTok) (rest : Str) (hsep : t.fixed = true ∨ digitRun rest = 0) :
-    ∃ more, t.lens (t.render v ++ rest) = (t.render v).length :: more := by
+/-! ### the meridiem word -/
+
+theorem wordMatch_self (w rest : Str) : wordMatch w (w ++ rest) = true := by
+  induction w with
+  | nil => rfl
+  | cons p ps ih =>
+    simp only [List.cons_append, wordMatch, ih, Bool.and_true]
+    by_cases hp : p = '.'
+    · subst hp; decide
+    · simp [hp]
+
+theorem wordMatch_clash : ∀ (w x rest : Str), wordsClash w x = true → wordMatch w (x ++ rest) = false := by
+  intro w
+  induction w with
+  | nil => intro x rest h; simp [wordsClash] at h
+  | cons p ps ih =>
+    intro x rest h
+    cases x with
+    | nil => simp [wordsClash] at h
+    | cons c cs =>
+      simp only [wordsClash, Bool.or_eq_true, Bool.and_eq_true, bne_iff_ne, ne_eq] at h
+      simp only [List.cons_append, wordMatch]
+      rcases h with ⟨h1, h2⟩ | h
+      · simp [h1, h2]
+      · rw [ih cs rest h]; simp
+
+theorem wordsClash_irrefl (w : Str) : wordsClash w w = false := by
+  induction w with
+  | nil => rfl
+  | cons p ps ih => simp [wordsClash, ih]
+
+theorem ampm_ne (L : Loc) (hL : AmPmOK L = true) : L.pm.toList ≠ L.am.toList := by
+  intro e
+  unfold AmPmOK at hL
+  rw [e, wordsClash_irrefl] at hL
+  cases hL
+
+theorem lens_head_A (L : Loc) (hL : AmPmOK L = true) (v : Val) (rest : Str) :
+    ∃ more, lensWords [L.am.toList, L.pm.toList] (NTok.A.render L v ++ rest) = (NTok.A.render L v).length :: more := by
+  unfold NTok.render
+  by_cases hp : v.h ≥ 12
+  · simp only [hp, if_true, lensWords, List.flatMap_cons, List.flatMap_nil, List.append_nil,
+      wordMatch_clash _ _ rest hL, wordMatch_self, Bool.false_eq_true, if_false, List.nil_append]
+    exact ⟨[], rfl⟩
+  · simp only [hp, if_false, lensWords, List.flatMap_cons, List.flatMap_nil, List.append_nil, wordMatch_self, if_true]
+    exact ⟨_, rfl⟩
+
+theorem lens_head (L : Loc) (v : Val) (hv : InRange v) (t : NTok) (hL : t = NTok.A → AmPmOK L = true) (rest : Str)
+    (hsep : t.fixed = true ∨ digitRun rest = 0) :
+    ∃ more, t.lens L (t.render L v ++ rest) = (t.render L v).length :: more := by
   cases h : t.isDigitTok with
-  | true => exact lens_head_digit v hv t h rest hsep
+  | true => exact lens_head_digit L v hv t h rest hsep
   | false =>
     cases t <;> simp [NTok.isDigitTok] at h
     · exact lens_head_Z v.off hv.off.2 rest
     · exact lens_head_ZZ v.off hv.off.2 rest
+    · exact lens_head_A L (hL rfl) v rest
 
 end Pendulum.Fmt
 
@@ -271,7 +411,9 @@ namespace Pendulum.Fmt
 
 /-! ### reading a piece back (`_get_parsed_value`) -/
 
-/-- the field assignment a token's group performs when it reads the text `format()` wrote for `v` -/
+/-- the field assignment a token's group performs when it reads the text `format()` wrote for `v`:
+    `YY` applies the pivot (00..68 → 20xx, 69..99 → 19xx), `hh`/`h` store the 12-hour number, `A` the meridiem,
+    `S`…`SSSSS` the printed digits scaled back to microseconds -/
 def NTok.set (v : Val) : NTok → Parsed → Parsed
   | .YYYY, p => { p with year := some v.y }
   | .MM, p | .M, p => { p with month := some v.mo }
@@ -281,6 +423,15 @@ def NTok.set (v : Val) : NTok → Parsed → Parsed
   | .ss, p | .s, p => { p with second := some v.s }
   | .SSSSSS, p => { p with microsecond := some v.us }
   | .Z, p | .ZZ, p => { p with tz := some (TzP.fixed v.off) }
+  | .YY, p => { p with year := some (if v.y % 100 ≤ 68 then v.y % 100 + 2000 else v.y % 100 + 1900) }
+  | .DDDD, p | .DDD, p => { p with day_of_year := some (doy v) }
+  | .hh, p | .h, p => { p with hour := some (h12 v) }
+  | .A, p => { p with meridiem := some (decide (v.h ≥ 12)) }
+  | .S, p => { p with microsecond := some (v.us / 100000 * 100000) }
+  | .SS, p => { p with microsecond := some (v.us / 10000 * 10000) }
+  | .SSS, p => { p with microsecond := some (v.us / 1000 * 1000) }
+  | .SSSS, p => { p with microsecond := some (v.us / 100 * 100) }
+  | .SSSSS, p => { p with microsecond := some (v.us / 10 * 10) }
 
 theorem parseOffset_form (sep : Bool) (neg : Bool) (a b c d : Nat) (ha : a < 10) (hb : b < 10) (hc : c < 10) (hd : d < 10) :
     parseOffset ((if neg then '-' else '+') :: (digitChar a :: digitChar b :: ((if sep then [':'] else []) ++ [digitChar c, digitChar d])))
@@ -326,25 +477,44 @@ theorem parseOffset_form (sep : Bool) (neg : Bool) (a b c d : Nat) (ha : a < 10)
       if_false, tw, dw, i1, i2]
     simp [hneg]
 
-theorem applyGroup_NTok (L : Loc) (v : Val) (hv : InRange v) (t : NTok) (p : Parsed) :
-    applyGroup L t.str (t.render v) p = .ok (t.set v p) := by
+theorem applyGroup_NTok (L : Loc) (v : Val) (hv : InRange v) (t : NTok) (hL : t = NTok.A → AmPmOK L = true) (p : Parsed) :
+    applyGroup L t.str (t.render L v) p = .ok (t.set v p) := by
   cases h : t.isDigitTok with
   | true =>
-    obtain ⟨hall, hne, hval⟩ := piece_digit v hv t h
-    have hc := convInt_digits _ hne hall
-    rw [hval] at hc
+    obtain ⟨hall, hne, hval⟩ := piece_digit L v hv t h
+    have hc : ∀ mul : Int, convInt (PKind.int mul 0) (t.render L v) = .ok (t.value v * mul) := by
+      intro mul; rw [convInt_digits mul _ hne hall, hval]
+    have h12 := h12_bounds v hv
     cases t
     case Z => simp [NTok.isDigitTok] at h
     case ZZ => simp [NTok.isDigitTok] at h
+    case A => simp [NTok.isDigitTok] at h
+    case YY =>
+      show applyKind (FKind.year true) (PKind.int 1 0) _ p = _
+      simp only [applyKind, hc, NTok.value, Int.mul_one, if_true]; rfl
+    case hh =>
+      show applyKind FKind.hour12 (PKind.int 1 0) _ p = _
+      simp only [applyKind, hc, NTok.value, Int.mul_one]
+      rw [if_neg (by omega)]; rfl
+    case h =>
+      show applyKind FKind.hour12 (PKind.int 1 0) _ p = _
+      simp only [applyKind, hc, NTok.value, Int.mul_one]
+      rw [if_neg (by omega)]; rfl
     all_goals
       first
-      | (show applyKind (FKind.year false) (PKind.int 1 0) _ p = _; simp only [applyKind, hc]; rfl)
-      | (show applyKind FKind.month (PKind.int 1 0) _ p = _; simp only [applyKind, hc]; rfl)
-      | (show applyKind FKind.day (PKind.int 1 0) _ p = _; simp only [applyKind, hc]; rfl)
-      | (show applyKind FKind.hour (PKind.int 1 0) _ p = _; simp only [applyKind, hc]; rfl)
-      | (show applyKind FKind.minute (PKind.int 1 0) _ p = _; simp only [applyKind, hc]; rfl)
-      | (show applyKind FKind.second (PKind.int 1 0) _ p = _; simp only [applyKind, hc]; rfl)
-      | (show applyKind FKind.micro (PKind.int 1 0) _ p = _; simp only [applyKind, hc]; rfl)
+      | (show applyKind (FKind.year false) (PKind.int 1 0) _ p = _; simp only [applyKind, hc, Int.mul_one]; rfl)
+      | (show applyKind FKind.month (PKind.int 1 0) _ p = _; simp only [applyKind, hc, Int.mul_one]; rfl)
+      | (show applyKind FKind.dayOfYear (PKind.int 1 0) _ p = _; simp only [applyKind, hc, Int.mul_one]; rfl)
+      | (show applyKind FKind.day (PKind.int 1 0) _ p = _; simp only [applyKind, hc, Int.mul_one]; rfl)
+      | (show applyKind FKind.hour (PKind.int 1 0) _ p = _; simp only [applyKind, hc, Int.mul_one]; rfl)
+      | (show applyKind FKind.minute (PKind.int 1 0) _ p = _; simp only [applyKind, hc, Int.mul_one]; rfl)
+      | (show applyKind FKind.second (PKind.int 1 0) _ p = _; simp only [applyKind, hc, Int.mul_one]; rfl)
+      | (show applyKind FKind.micro (PKind.int 1 0) _ p = _; simp only [applyKind, hc, Int.mul_one]; rfl)
+      | (show applyKind FKind.micro (PKind.int 100000 0) _ p = _; simp only [applyKind, hc]; rfl)
+      | (show applyKind FKind.micro (PKind.int 10000 0) _ p = _; simp only [applyKind, hc]; rfl)
+      | (show applyKind FKind.micro (PKind.int 1000 0) _ p = _; simp only [applyKind, hc]; rfl)
+      | (show applyKind FKind.micro (PKind.int 100 0) _ p = _; simp only [applyKind, hc]; rfl)
+      | (show applyKind FKind.micro (PKind.int 10 0) _ p = _; simp only [applyKind, hc]; rfl)
   | false =>
     have hoff := hv.off
     have key : ∀ sep : Bool, parseOffset (offsetStr sep v.off) = .ok v.off := by
@@ -368,5 +538,13 @@ theorem applyGroup_NTok (L : Loc) (v : Val) (hv : InRange v) (t : NTok) (p : Par
       simp only [applyKind, key true]; rfl
     · show applyKind FKind.offset PKind.str (offsetStr false v.off) p = _
       simp only [applyKind, key false]; rfl
+    · have hne := ampm_ne L (hL rfl)
+      show (if (NTok.A.render L v) == L.am.toList then Except.ok { p with meridiem := some false }
+            else if (NTok.A.render L v) == L.pm.toList then Except.ok { p with meridiem := some true }
+            else Except.error "ValueError") = _
+      unfold NTok.render NTok.set
+      by_cases hp : v.h ≥ 12
+      · simp [hp, hne]
+      · simp [hp]
 
 end Pendulum.Fmt
